@@ -255,6 +255,11 @@ func (bc *BlockChain) GetCandidatesTop(hash common.Hash) []*store.Candidate {
 	return bc.db.GetCandidatesTop(hash)
 }
 
+// GetStableCandidatesTop get the candidate list of the latest stable block
+func (bc *BlockChain) GetStableCandidatesTop() []*store.Candidate {
+	return bc.db.GetStableCandidatesTop()
+}
+
 func (bc *BlockChain) FetchConfirm(height uint32) error {
 	block := bc.GetBlockByHeight(height)
 	if block == nil {
